@@ -148,8 +148,9 @@ def flatKeys (defs : List (String × V)) : List String :=
 /-- `ttc['name']` of a TTC that is a dictionary with a string under `name`; `none` for `None` / `{}` -/
 def ttcNameOf (t : V) : Option String := (dget t "name").bind strOf
 
-/-- a TTC value the class factory can handle: falsy, or a dictionary with the key `name` -/
-def ttcOk (t : V) : Bool := !Visitor.truthy t || (dget t "name").isSome
+/-- a TTC value the class factory can handle: falsy, or a dictionary (`ttc.get('name')`; since fix 6addd5c a
+dictionary without the key `name` - a composite TTC - is fine; `.get` on a truthy non-dictionary raises AttributeError) -/
+def ttcOk (t : V) : Bool := !Visitor.truthy t || Visitor.isDict t
 
 /-- pointwise agreement of two lists -/
 def all2 {α β} (p : α → β → Bool) : List α → List β → Bool
